@@ -33,7 +33,12 @@ RULE = ('three ways of loading (55% file, 25% custom handle, 20% direct dictiona
         'marker forms (never substituted).  A handle is loaded 1-3 times (half of the cases '
         'more than once): h() with h.clear() in between, or h.load() directly; every load is '
         'observed separately (World identity, fresh instances, ids, callbacks, marks), the '
-        'resource labels are taken at the end so that a resource loaded twice is seen.  '
+        'resource labels are taken at the end so that a resource loaded twice is seen.  Between '
+        'the loads the files are rewritten under the same names (60% another description), and '
+        '25% of the loads of a multi-load case (6% otherwise) read a description that must make '
+        'the load raise: a constructor that refuses its first argument, a ${name} or a $res{path} '
+        'that does not exist - before or after good loads; the exception type and '
+        'handle.cached are observed.  '
         'distinct = different (case, trace); '
         'non-trivial = loaded, >= 2 constructor calls and >= 1 exact reference')
 TRUSTED = [
@@ -268,6 +273,68 @@ def _gen_passes(rng):
     return ps
 
 
+def _fail(rng, desc, tags):
+    """a copy of desc whose load must raise: a constructor that refuses, a name or a
+    resource that does not exist"""
+    d = json.loads(json.dumps(desc))
+    ds = list(d.get('processors', [])) + [c for e in d.get('entities', [])
+                                          for c in e.get('components', [])]
+    if not ds:
+        return None
+    t = rng.choice(ds)
+    how = rng.choice(['raise', 'name', 'res'])
+    if how == 'raise':
+        t.setdefault('args', []).insert(0, '!raise')
+    else:
+        bad = (rng.choice(['${%s.zz}' % MOD, '${zq.mod.x}', '${%s.sub.nope}' % MOD]) if how == 'name'
+               else rng.choice(['$res{zz}', '$res{r1.zz}', '$res{m1/nope}']))
+        if rng.random() < 0.5:
+            t.setdefault('args', []).append(bad)
+        else:
+            t.setdefault('kwargs', {})['bad'] = bad
+    tags['fail_' + how] = tags.get('fail_' + how, 0) + 1
+    return d
+
+
+def _vary_loads(rng, case, ns, tree, tags):
+    """between the loads of one handle the files are rewritten: other descriptions,
+    and descriptions that make the load raise (before or after a good one)"""
+    ops = case['loads']
+    many = len(ops) > 1
+    has_dict = any(st[0] == 'dict' for st in case.get('steps', []))
+    out = []
+    for op in ops:
+        ld = {'op': op}
+        fresh = many and not has_dict and rng.random() < 0.6
+        fail = rng.random() < (0.25 if many else 0.06)
+        if case['kind'] == 'file':
+            d = case['desc']
+            if fresh:
+                procs = [n for n, s in ns if s[0] == 'proc']
+                d = _gen_desc(rng, ns, tree, tags, rng.sample(procs, rng.randint(0, len(procs))), _Ids())
+            if fail:
+                d = _fail(rng, d, tags) or d
+            if d is not case['desc']:
+                ld['desc'] = d
+        else:
+            files, ids = {}, _Ids()
+            fsteps = [m for m, st in enumerate(case['steps']) if st[0] == 'file']
+            for m in fsteps:
+                st = case['steps'][m]
+                if fresh:
+                    share = [x['type'] for x in st[2].get('processors', [])]
+                    files[str(m)] = _gen_desc(rng, ns, tree, tags, share, ids)
+            if fail and fsteps:
+                m = rng.choice(fsteps)
+                d = _fail(rng, files.get(str(m), case['steps'][m][2]), tags)
+                if d is not None:
+                    files[str(m)] = d
+            if files:
+                ld['files'] = files
+        out.append(ld if len(ld) > 1 else op)
+    case['loads'] = out
+
+
 def gen_case(rng, abort=False, kind=None):
     ns = _gen_ns(rng)
     tree = _gen_tree(rng)
@@ -309,6 +376,8 @@ def gen_case(rng, abort=False, kind=None):
         else:
             case['enabled'] = rng.random() < 0.5
         case['steps'] = steps
+    if kind != 'direct':
+        _vary_loads(rng, case, ns, tree, tags)
     if abort and descs:
         # one open-form string whose prefix match names nothing: the load is aborted
         desc = rng.choice(descs)
@@ -376,8 +445,13 @@ def run(case):
     cbs = []
     state = {}
 
+    class Boom(Exception):
+        pass
+
     def make_class(serial, spec):
         def __init__(self, *a, **k):
+            if a and type(a[0]) is str and a[0] == '!raise':
+                raise Boom('constructor refused')
             inst[id(self)] = len(log)
             keep.append(self)
             log.append([serial, a, k])
@@ -522,10 +596,18 @@ def run(case):
         else:
             wh = None
         state['wh'] = wh
-        worlds = []           # World instances in order of first appearance
+        worlds = []           # (load number, World instance it returned)
         results = []
-        ops = ['call'] if kind == 'direct' else case.get('loads', ['call'])
-        for n, op in enumerate(ops):
+        for n, (op, view) in enumerate(_views(case)):
+            # the files as they are at this load (same names, rewritten)
+            if kind == 'file':
+                with open(os.path.join(tmp, 'world.json'), 'w') as f:
+                    json.dump(view['desc'], f)
+            elif kind == 'handle':
+                for m, st in enumerate(view['steps']):
+                    if st[0] == 'file':
+                        with open(os.path.join(tmp, 'world%d.json' % m), 'w') as f:
+                            json.dump(st[2], f)
             del log[:], cbs[:], marks[:]
             inst.clear()
             state.pop('world', None)
@@ -543,12 +625,15 @@ def run(case):
                         wh.clear()
                     world = wh()
             except Exception as ex:
-                results.append({'world': n, 'err': type(ex).__name__, 'nconstr': len(log)})
+                # a load that raised leaves the handle uncached
+                stale = wh is not None and op == 'call' and wh.cached
+                results.append({'world': -1 if stale else n, 'err': type(ex).__name__,
+                                'nconstr': len(log)})
                 continue
             state['world'] = world
-            serial = next((k for k, x in enumerate(worlds) if x is world), len(worlds))
-            if serial == len(worlds):
-                worlds.append(world)
+            # the number of the first load that returned this World instance
+            serial = next((k for k, x in worlds if x is world), n)
+            worlds.append((n, world))
             out = {'world': serial}
             out['raw'] = [[s, a, kw] for s, a, kw in log]
             procs = []
@@ -618,10 +703,40 @@ def _keys_of(v, acc):
             _keys_of(x, acc)
 
 
+def _views(case):
+    """[(operation, case as it is at that load)]: the files may have been rewritten"""
+    if case.get('kind', 'file') == 'direct':
+        return [('call', case)]
+    out = []
+    for ld in case.get('loads', ['call']):
+        if isinstance(ld, str):
+            out.append((ld, case))
+            continue
+        v = dict(case)
+        if 'desc' in ld:
+            v['desc'] = ld['desc']
+        if 'files' in ld:
+            v['steps'] = [[st[0], st[1], ld['files'][str(n)]]
+                          if st[0] == 'file' and str(n) in ld['files'] else st
+                          for n, st in enumerate(case['steps'])]
+        out.append((ld['op'], v))
+    return out
+
+
+def _view_descs(v):
+    if v.get('kind', 'file') == 'file':
+        return [v['desc']]
+    return [st[-1] for st in v['steps'] if st[0] in ('file', 'dict')]
+
+
 def _descs(case):
-    if case.get('kind', 'file') == 'file':
-        return [case['desc']]
-    return [st[-1] for st in case['steps'] if st[0] in ('file', 'dict')]
+    out, seen = [], set()
+    for _, v in _views(case):
+        for d in _view_descs(v):
+            if id(d) not in seen:
+                seen.add(id(d))
+                out.append(d)
+    return out
 
 
 def key_table(case):
@@ -755,9 +870,14 @@ def enc_load(case, kt):
 REJECT = '(OOk (WO [] [] [] true [CB (-7) 0 JNull false] [((-7), false)]))'   # hang / crash: never accepted
 
 
+ERRORS = ('ModuleNotFoundError', 'AttributeError', 'KeyError', 'TypeError', 'Boom',
+          'AssertionError', 'ValueError', 'ImportError')
+
+
 def enc_obs(trace, kt):
     if 'err' in trace:
-        return 'OErr'
+        # the exception of the cause reaches the caller with its own type
+        return 'OErr' if trace['err'] in ERRORS else REJECT
     if 'constr' not in trace:
         return REJECT
     cons = ['(K %s %s %s)' % (z(s), lst([enc_canon(x, kt) for x in a]),
@@ -778,11 +898,13 @@ def _loads(trace):
 
 def encode(case, trace):
     kt = key_table(case)
-    if 'loads' not in trace:             # hang / crash: never accepted
-        obs = ['(0, %s)' % REJECT]
+    views = _views(case)
+    if 'loads' not in trace or len(trace['loads']) != len(views):   # hang / crash: never accepted
+        runs = ['(%s, (0, %s))' % (enc_load(views[0][1], kt), REJECT)]
     else:
-        obs = ['(%s, %s)' % (z(t['world']), enc_obs(t, kt)) for t in trace['loads']]
-    return '(Case %s %s %s)' % (enc_env(case, kt), enc_load(case, kt), lst(obs))
+        runs = ['(%s, (%s, %s))' % (enc_load(v, kt), z(t['world']), enc_obs(t, kt))
+                for (_, v), t in zip(views, trace['loads'])]
+    return '(Case %s %s)' % (enc_env(case, kt), lst(runs))
 
 
 # ------------------------------------------------------------------ evidence
@@ -831,6 +953,7 @@ def stats(cases, traces):
     for c in cases:
         if c.get('kind', 'file') != 'direct':
             for o in c.get('loads', ['call']):
+                o = o if isinstance(o, str) else o['op'] + '+rewritten'
                 ops[o] = ops.get(o, 0) + 1
     out['load_operations'] = ops
     out['resources_loaded_more_than_once'] = sum(1 for tr in traces
@@ -864,9 +987,17 @@ def _copy(case):
 
 def _desc_getters(case):
     if case.get('kind', 'file') == 'file':
-        return [lambda c: c['desc']]
-    return [(lambda c, n=n: c['steps'][n][-1]) for n, st in enumerate(case['steps'])
-            if st[0] in ('file', 'dict')]
+        out = [lambda c: c['desc']]
+    else:
+        out = [(lambda c, n=n: c['steps'][n][-1]) for n, st in enumerate(case['steps'])
+               if st[0] in ('file', 'dict')]
+    for i, ld in enumerate(case.get('loads', [])):
+        if isinstance(ld, dict):
+            if 'desc' in ld:
+                out.append(lambda c, i=i: c['loads'][i]['desc'])
+            for m in ld.get('files', {}):
+                out.append(lambda c, i=i, m=m: c['loads'][i]['files'][m])
+    return out
 
 
 def shrink(case):
